@@ -135,7 +135,22 @@ theorem view_stable_get (v : Remote.Variant) (s s' : Remote.State) (p : Store.Pi
     simp only [Remote.step] at hs
     split at hs
     · simp at hs
-    · split at hs <;> simp at hs; rw [← hs]
+    · rename_i hl
+      split at hs
+      · split at hs
+        · rename_i b hb
+          simp at hs; subst hs
+          unfold canGet
+          simp only [Remote.upd]
+          by_cases e : m = s.mach p
+          · subst e
+            by_cases e2 : ns' = ns ∧ k' = k
+            · obtain ⟨rfl, rfl⟩ := e2
+              simp [Remote.put, hl, hb]
+            · simp [Remote.put, e2]
+          · simp [e]
+        · simp at hs
+      · simp at hs; rw [← hs]
   | some b =>
     simp only [Remote.step] at hs
     split at hs
@@ -188,12 +203,18 @@ theorem remote_kept (v : Remote.Variant) (s s' : Remote.State) (e : Remote.Ev) (
       simp only [Remote.step] at hs
       split at hs
       · simp at hs
-      · split at hs <;> simp at hs; subst hs; exact h
+      · split at hs
+        · split at hs <;> simp at hs
+          subst hs; exact h
+        · simp at hs; subst hs; exact h
     | some b' =>
       simp only [Remote.step] at hs
       split at hs
       · split at hs <;> simp at hs; subst hs; exact h
       · split at hs <;> simp at hs; subst hs; exact h
+  | taintSet p l la ra ok => simp only [Remote.step] at hs; split at hs <;> simp at hs; subst hs; exact h
+  | taintExists p l r => cases r <;> simp only [Remote.step] at hs <;> split at hs <;> simp at hs <;> subst hs <;> exact h
+  | taintDelete p l la ra ok => simp only [Remote.step] at hs; split at hs <;> simp at hs; subst hs; exact h
   | setRes p ns' k' b' lst rst ok =>
     simp only [Remote.step] at hs
     split at hs
@@ -319,7 +340,13 @@ theorem rcarries_step {Q : NS → Bytes → Bytes → Prop} {v : Remote.Variant}
       simp only [Remote.step] at hs
       split at hs
       · simp at hs
-      · split at hs <;> simp at hs; subst hs; exact ⟨h1, h2⟩
+      · split at hs
+        · split at hs
+          · rename_i b hb
+            simp at hs; subst hs
+            exact ⟨h1, upd_loc_carries s.loc _ _ h2 (put_carries _ ns k b (h2 _) (h1 ns k b hb))⟩
+          · simp at hs
+        · simp at hs; subst hs; exact ⟨h1, h2⟩
     | some b =>
       simp only [Remote.step] at hs
       split at hs
@@ -329,6 +356,9 @@ theorem rcarries_step {Q : NS → Bytes → Bytes → Prop} {v : Remote.Variant}
           simp at hs; subst hs
           exact ⟨h1, upd_loc_carries s.loc _ _ h2 (put_carries _ ns k b (h2 _) (h1 ns k b hc.1))⟩
         · simp at hs
+  | taintSet p l la ra ok => simp only [Remote.step] at hs; split at hs <;> simp at hs; subst hs; exact ⟨h1, h2⟩
+  | taintExists p l r => cases r <;> simp only [Remote.step] at hs <;> split at hs <;> simp at hs <;> subst hs <;> exact ⟨h1, h2⟩
+  | taintDelete p l la ra ok => simp only [Remote.step] at hs; split at hs <;> simp at hs; subst hs; exact ⟨h1, h2⟩
   | setRes p ns k b lst rst ok =>
     have hq := hq1 p ns k b lst rst ok rfl
     simp only [Remote.step] at hs
